@@ -129,6 +129,14 @@ def s_ite(c, a, b):
     return ops.merge([(zbool(c), a), (z3.Not(zbool(c)), b)])
 
 
+def s_nonsingular(A):
+    from .arrays import det, as_array
+    A = as_array(A)
+    if A.shape[0] == 0:
+        return True
+    return ops.s_not(eq_value(det(A), 0))
+
+
 def s_is_real(x):
     x = ops.norm_num(force(x))
     if isinstance(x, SNum):
@@ -160,6 +168,10 @@ class RaisedVal:
         from .ops import raise_py
         raise_py('AttributeError', f'the call raised {self.exc.cls.name}; it has no result attribute {name}')
 
+    def pyvc_getitem(self, I, idx):
+        from .ops import raise_py
+        raise_py('TypeError', f'the call raised {self.exc.cls.name}; the result is not subscriptable')
+
 
 def s_raised(result, *classes):
     result = force(result)
@@ -181,7 +193,7 @@ def spec_module():
             'eq': _B('eq', s_eq), 'implies': _B('implies', s_implies), 'iff': _B('iff', s_iff),
             'forall': _B('forall', s_forall), 'exists': _B('exists', s_exists), 'ite': _B('ite', s_ite),
             'is_real': _B('is_real', s_is_real), 'ge': _B('ge', s_ge), 'le': _B('le', lambda a, b: s_ge(b, a)),
-            'raised': Builtin('raised', lambda a, k: s_raised(*a)),
+            'raised': Builtin('raised', lambda a, k: s_raised(*a)), 'nonsingular': _B('nonsingular', s_nonsingular),
         }, opaque=False)
     return _SPEC
 
